@@ -67,6 +67,18 @@ def run(ctx):
             else:
                 a = vec(rng, N, 'bin' if kind == 'bin' else kind); b = vec(rng, N, 'rnd' if kind == 'bin' else kind)
             c = vec(rng, N, 'rnd')
+            if kind == 'rnd':
+                # the same routines with every const operand in read-only memory (opcode + 1000): a write to an operand, even one that is
+                # undone before returning, kills the process
+                add(1006, N, 0, a, b, mopc=6, meta=('mul', a, b, None, 0))
+                if N >= 2:
+                    add(1007, N, 0, a, b, mopc=7, meta=('mul', a, b, None, 0)); add(1010, N, 0, a, b, c, mopc=10, meta=('mul', a, b, c, 1)); add(1011, N, 0, a, b, c, mopc=11, meta=('mul', a, b, c, -1))
+                aa = rng.randrange(2 * N)
+                add(1004, N, aa, a, a, mopc=4, meta=('xai', aa, a)); add(1005, N, aa, a, a, mopc=5, meta=('xaim1', aa, a)); add(1025, N, aa, a, a, mopc=5, meta=('xaim1', aa, a))
+                for opc, f in ((0, 1), (1, -1)):
+                    add(1000 + opc, N, 0, a, b, mopc=opc, meta=('lin', a, b, f)); add(1020 + opc, N, 0, a, b, mopc=opc, meta=('lin', a, b, f))
+                add(1002, N, 12345, a, b, mopc=2, meta=('lin', a, b, 12345)); add(1003, N, 12345, a, b, mopc=3, meta=('lin', a, b, -12345))
+                add(1022, N, 12345, a, b, mopc=2, meta=('lin', a, b, 12345)); add(1023, N, 12345, a, b, mopc=3, meta=('lin', a, b, -12345))
             blds = ('optim', 'debug') if N <= 64 else ('optim',)
             add(6, N, 0, a, b, builds=blds, meta=('mul', a, b, None, 0))
             if N >= 2: add(7, N, 0, a, b, builds=blds, meta=('mul', a, b, None, 0))
